@@ -45,6 +45,11 @@ def gen_spec(rnd):
             w['respawn'] = False
         if rnd.random() < .1:
             w['max_retry'] = 2
+        if rnd.random() < .25:
+            # captured output; a helper process of the worker inherits the pipe and may outlive the worker
+            w['capture'] = rnd.choice([True, 'both'])
+            if rnd.random() < .6 and not w.get('kids'):
+                w['kids'] = [{'beh': rnd.choice([{}, {'*': ['ignore']}])}]
     names = [w['name'] for w in ws]
     steps = []
     for _ in range(rnd.randint(2, 7)):
